@@ -9,13 +9,53 @@ from ..model import Program, Undecided
 MSG = "indi.message"
 
 
-def make_client(p: Program, callbacks: Optional[List[Obj]] = None, cls="indi.client.client.Client") -> Obj:
-    c = Obj(p.cls(cls), {}, label="client")
-    c.attrs["devices"] = Dct(label="client.devices")
-    c.attrs["callbacks"] = Lst(list(callbacks or []), label="client.callbacks")
-    c.attrs["control_connection_handler"] = Obj(None, label="<control-connection>")
-    c.attrs["blob_connection_handler"] = Obj(None, label="<blob-connection>")
-    return c
+def make_client(p: Program, callbacks: Optional[List[Obj]] = None, cls="indi.client.client.Client", it: Interp = None) -> Obj:
+    """The client is produced by interpreting its real constructor; callback configurations are registered through
+    the real onevent().  'callbacks' holds templates from make_callback and is updated in place with the
+    configuration objects that onevent created (so rules can refer to the registered objects)."""
+    if it is None:
+        raise Undecided("make_client needs the interpreter of the current path")
+    from ..absint import Frame
+    ci = p.cls(cls)
+    saved = dict(it.opts)
+    o = client_opts(p)
+    it.opts["inline"] = o["inline"]
+    it.opts["instantiate"] = o["instantiate"]
+    it.opts["foreign_model"] = o["foreign_model"]
+    it.opts["call_may_raise"] = None
+    it.opts["assert_forks"] = False
+    n_ev = len(it.events)
+    try:
+        sig = p.init_chain_signature(ci)
+        kw = {n: Obj(None, label=f"<{n.replace('_', '-')}>") for n in sig.required()}
+        fr = Frame(None, ci.module, {})
+        c = it.apply(Cls(ci), [], kw, [], None, fr, False)
+        if not isinstance(c, Obj):
+            raise Undecided(f"construction of {ci.name} did not yield an abstract object")
+        c.label = "client"
+        onevent = ci.find_method("onevent")
+        for i, t in enumerate(callbacks or []):
+            table = c.attrs.get("callbacks")
+            before = list(table.items) if isinstance(table, Lst) else None
+            it.run_function(Fn(onevent, c), [], {k: t.attrs[k] for k in ("device", "vector", "element", "event_type", "callback")})
+            table = c.attrs.get("callbacks")
+            if before is None or not isinstance(table, Lst):
+                raise Undecided("the client keeps no list 'callbacks'")
+            added = [x for x in table.items if all(x is not y for y in before)]
+            if len(added) != 1 or not isinstance(added[0], Obj):
+                raise Undecided("onevent did not register exactly one configuration")
+            added[0].label = t.label
+            callbacks[i] = added[0]
+        for k in ("devices", "callbacks"):
+            if k not in c.attrs:
+                raise Undecided(f"the client constructor does not create '{k}'")
+        c.attrs["devices"].label = "client.devices"
+        c.attrs["callbacks"].label = "client.callbacks"
+        del it.events[n_ev:]
+        return c
+    finally:
+        it.opts.clear()
+        it.opts.update(saved)
 
 
 def make_callback(p: Program, device=None, vector=None, element=None, event_type="BaseEvent", label="cb") -> Obj:
@@ -95,7 +135,7 @@ def feed(p: Program, build_client, messages_factory, extra_opts=None):
     f = p.cls("indi.client.client.BaseClient").find_method("process_message")
 
     def run(it: Interp):
-        c = build_client()
+        c = build_client(it)
         it.client = c
         it.log = []
         for m in messages_factory():
